@@ -126,7 +126,7 @@ func c01One(r *Run, in *instance, wr string) {
 	})
 	w := walkVerifier(in, walkOpts{Wrapper: wr, Cap: capPlain, Field: true, PermGL: true, PermBN: true, NoShape: true, Extra: extra})
 	if w.Panic != "" || w.Err != nil {
-		r.Infra("walk %s/%s failed: %s %v", in.Name, wr, w.Panic, w.Err)
+		walkFailed(r, in, wr, w)
 		return
 	}
 	e := w.E
